@@ -527,6 +527,9 @@ def run(ck: Check, repo: Repo) -> None:
     # 'in addition to what the file already declared': a new .license sibling must not hide it (shared with C09-R9)
     c09.rule_sibling_hides(ck, repo, "R11")
     rule_parse_none(ck, repo)
+    # what is written must be decodable by the reader: no error mode that emits bytes the reader turns into something else (shared with C16-R5)
+    from . import c16
+    c16.rule_decode_modes(ck, repo, "R13")
 
 
 # ------------------------------------------------------------------ R10: the header finder and the reader agree on ignore blocks
